@@ -257,21 +257,93 @@ theorem reads_never_panic (w : List Nat) (ops : List ROp) (hops : FramesOf w ops
   have hinv := run_inv w ops hops _ h0
   exact (rstep_inv w _ (.read n) hinv trivial).2 n rfl
 
-/-- Still open (stated, not proved): on an open stream satisfying the invariants, `Read(n)` with `n > 0`
-returns at least one byte iff the received set contains the read position … -/
-def ReadAvailableIffStatement : Prop :=
-  ∀ (w : List Nat) (c : Conn) (s : Stream) (spec : NetVerif.Proofs.C30.Spec) (n : Nat),
-    RI w s spec → Pre s → isOpen s → s.writeOnly = false → 0 < n →
-    (0 < (bytesOf (QuicStream.read c s n).2.2).length ↔ Mem s.inset (pos s))
+/-- one step keeps the final-size invariant, and a recorded final size never changes -/
+theorem rstep_fin (w : List Nat) (st : Conn × Stream × List Nat) (op : ROp) (h : HInv w st) (hfi : FinInv st.2.1)
+    (hop : match op with | .frame off b _ => FrameOf w off b | .read _ => True) :
+    FinInv (rstep st op).2.1 ∧ (st.2.1.insize ≠ -1 → (rstep st op).2.1.insize = st.2.1.insize) := by
+  obtain ⟨⟨spec, hri⟩, hpre, hopen, _, _⟩ := h
+  cases op with
+  | frame off b fin => exact feed_fin w st.1 st.2.1 spec (off, b, fin) hri hfi hopen hop
+  | read n =>
+    show FinInv (QuicStream.read st.1 st.2.1 n).2.1 ∧ (_ → (QuicStream.read st.1 st.2.1 n).2.1.insize = _)
+    cases hw : st.2.1.writeOnly
+    case true =>
+      have hr : QuicStream.read st.1 st.2.1 n = (st.1, st.2.1, .errWriteOnly) := by unfold QuicStream.read; simp [hw]
+      rw [hr]; exact ⟨hfi, fun _ => rfl⟩
+    case false =>
+      have hk := (read_more w st.1 st.2.1 spec n hri hpre hopen hfi hw).2.2
+      refine ⟨?_, fun _ => hk.1⟩
+      unfold FinInv; rw [hk.1, hk.2]; exact hfi
 
-/-- … and reports EOF (alone or with the last bytes) iff a FIN was recorded and the read reaches the
-final size. -/
-def EofIffStatement : Prop :=
-  ∀ (w : List Nat) (c : Conn) (s : Stream) (spec : NetVerif.Proofs.C30.Spec) (n : Nat),
-    RI w s spec → Pre s → isOpen s → s.writeOnly = false →
-    (((QuicStream.read c s n).2.2 = .eof ∨ ∃ b, (QuicStream.read c s n).2.2 = .data b true) ↔
-      (s.insize ≠ -1 ∧ pos (QuicStream.read c s n).2.1 = s.insize ∧
-        ¬ (s.inbuf.length > s.inbufoff) ∧ (s.canRead = true)))
+theorem run_fin (w : List Nat) (ops : List ROp) (hops : FramesOf w ops) :
+    ∀ st, HInv w st → FinInv st.2.1 →
+      FinInv (ops.foldl rstep st).2.1 ∧ (st.2.1.insize ≠ -1 → (ops.foldl rstep st).2.1.insize = st.2.1.insize) := by
+  induction ops with
+  | nil => intro st _ hf; exact ⟨hf, fun _ => rfl⟩
+  | cons op rest ih =>
+    intro st h hf
+    have h1 := rstep_inv w st op h (hops op (by simp))
+    have h2 := rstep_fin w st op h hf (hops op (by simp))
+    have h3 := ih (fun o ho => hops o (by simp [ho])) _ h1.1 h2.1
+    refine ⟨h3.1, fun hne => ?_⟩
+    have := h2.2 hne
+    simp only [List.foldl_cons]
+    rw [h3.2 (by rw [this]; exact hne), this]
+
+theorem fresh_HInv (w : List Nat) (c : Conn) (s : Stream) (h1 : s.inp = Pipe.empty) (h2 : s.inset = [])
+    (h3 : s.inbuf = []) (h4 : s.inbufoff = 0) (ho : isOpen s) : HInv w (c, s, []) := by
+  refine ⟨⟨_, fresh_RI w s h1 h2 h3 h4⟩, ?_, ho, ?_, fun i hi => by simp at hi⟩
+  · intro x hx hx2
+    have : x < s.inp.start + (s.inbuf.length : Int) := hx2
+    rw [h1, h3] at this; simp [Pipe.empty] at this; omega
+  · show (([] : List Nat).length : Int) = s.inp.start + s.inbufoff
+    rw [h1, h4]; simp [Pipe.empty]
+
+/-- **A recorded final size never changes**, whatever frames (consistent with one sender) and reads follow. -/
+theorem final_size_never_changes (w : List Nat) (ops1 ops2 : List ROp) (hops : FramesOf w (ops1 ++ ops2))
+    (c : Conn) (s : Stream) (h1 : s.inp = Pipe.empty) (h2 : s.inset = []) (h3 : s.inbuf = []) (h4 : s.inbufoff = 0)
+    (h5 : s.insize = -1) (ho : isOpen s)
+    (hne : (ops1.foldl rstep (c, s, [])).2.1.insize ≠ -1) :
+    ((ops1 ++ ops2).foldl rstep (c, s, [])).2.1.insize = (ops1.foldl rstep (c, s, [])).2.1.insize := by
+  have h0 := fresh_HInv w c s h1 h2 h3 h4 ho
+  have hf1 : FramesOf w ops1 := fun o ho => hops o (by simp [ho])
+  have hf2 : FramesOf w ops2 := fun o ho => hops o (by simp [ho])
+  have hi1 := run_inv w ops1 hf1 _ h0
+  have hfin1 := (run_fin w ops1 hf1 _ h0 (Or.inl h5)).1
+  rw [List.foldl_append]
+  exact (run_fin w ops2 hf2 _ hi1 hfin1).2 hne
+
+/-- **EOF exactly at the end**, in every reachable state: after any history of frames (consistent with one
+sender `w`, FIN included) and reads, `Read(n)` reports io.EOF — alone or together with the last bytes —
+iff a final size has been recorded (FIN received), the lock-free buffer is drained, and the read
+position reaches that final size. -/
+theorem eof_iff (w : List Nat) (ops : List ROp) (hops : FramesOf w ops) (c : Conn) (s : Stream)
+    (h1 : s.inp = Pipe.empty) (h2 : s.inset = []) (h3 : s.inbuf = []) (h4 : s.inbufoff = 0) (h5 : s.insize = -1)
+    (ho : isOpen s) (n : Nat) (hw : (ops.foldl rstep (c, s, [])).2.1.writeOnly = false) :
+    let st := ops.foldl rstep (c, s, [])
+    isEOF (QuicStream.read st.1 st.2.1 n).2.2 ↔
+      (st.2.1.insize ≠ -1 ∧ ¬ st.2.1.inbuf.length > st.2.1.inbufoff ∧
+        pos (QuicStream.read st.1 st.2.1 n).2.1 = st.2.1.insize) := by
+  have h0 := fresh_HInv w c s h1 h2 h3 h4 ho
+  obtain ⟨⟨spec, hri⟩, hpre, hopen, _, _⟩ := run_inv w ops hops _ h0
+  have hfi := (run_fin w ops hops _ h0 (Or.inl h5)).1
+  exact (read_more w _ _ spec n hri hpre hopen hfi hw).1
+
+/-- **Data is available exactly when the contiguous received prefix extends beyond the position**, in every
+reachable state: `Read(n)` with `n > 0` returns at least one byte iff the byte at the read position has
+been received (everything before it has been, by `Pre`). -/
+theorem read_available_iff (w : List Nat) (ops : List ROp) (hops : FramesOf w ops) (c : Conn) (s : Stream)
+    (h1 : s.inp = Pipe.empty) (h2 : s.inset = []) (h3 : s.inbuf = []) (h4 : s.inbufoff = 0) (h5 : s.insize = -1)
+    (ho : isOpen s) (n : Nat) (hn : 0 < n) (hw : (ops.foldl rstep (c, s, [])).2.1.writeOnly = false) :
+    let st := ops.foldl rstep (c, s, [])
+    (0 < (bytesOf (QuicStream.read st.1 st.2.1 n).2.2).length ↔ Mem st.2.1.inset (pos st.2.1)) ∧
+    (∀ x, 0 ≤ x → x < pos st.2.1 → Mem st.2.1.inset x) := by
+  have h0 := fresh_HInv w c s h1 h2 h3 h4 ho
+  obtain ⟨⟨spec, hri⟩, hpre, hopen, _, _⟩ := run_inv w ops hops _ h0
+  have hfi := (run_fin w ops hops _ h0 (Or.inl h5)).1
+  refine ⟨(read_more w _ _ spec n hri hpre hopen hfi hw).2.1 hn, fun x hx hx2 => hpre x hx ?_⟩
+  have := hri.off
+  unfold pos at hx2; omega
 
 /-- non-vacuity: out-of-order, overlapping frames of `w = [10,11,12,13,14,15]` -/
 example : FrameOf [10, 11, 12, 13, 14, 15] 3 [13, 14, 15] ∧ FrameOf [10, 11, 12, 13, 14, 15] 0 [10, 11, 12, 13] ∧
